@@ -37,6 +37,13 @@ func c01EarlyWire(c *core.Ctx, k c01pCase, bySid map[uint32]map[bool][]*wire.Seg
 		var up, down []byte
 		le := false
 		for _, s := range dirs[true] {
+			if (s.Proto == wire.CloseSessionRequest || s.Proto == wire.CloseSessionResponse) && len(up) > 0 {
+				// Behind the client's first close segment nothing is the application's program any
+				// more: when the server closed first, the client's input loop answers (close response,
+				// own close request) while the application may still be inside Write — seen on seed 2:
+				// the two fragments of one Write numbered 2 and 5. Compared up to here only.
+				break
+			}
 			if s.IsData() || s.Proto == wire.OpenSessionRequest {
 				c2s = append(c2s, s)
 				up = append(up, s.Payload...)
@@ -152,7 +159,7 @@ func c01EarlyWire(c *core.Ctx, k c01pCase, bySid map[uint32]map[bool][]*wire.Seg
 			got = append(got, fmt.Sprintf("%d/%d/%d/%s", s.Proto, s.Seq, len(s.Payload), sum(s.Payload)))
 		}
 		c.Compared()
-		readerLeft := sc.ServerClose == "after-writes"
+		readerLeft := sc.ServerClose == "after-writes" // the wire may stop early: prefix
 		okp := len(got) <= len(want) && (readerLeft || len(got) == len(want))
 		for i := 0; okp && i < len(got); i++ {
 			okp = got[i] == want[i]
